@@ -271,6 +271,19 @@ pub fn seed_corpus(target: &str) -> Vec<Vec<u8>> {
         }
         out.push(format!("ep\u{1}{}", lines.join("\n")).into_bytes());
       }
+      // authentic ADSS sharings of messages a STAR client never shares (0, 5, 31, 33 bytes)
+      {
+        use base64::{engine::Engine as _, prelude::BASE64_STANDARD};
+        for len in [0usize, 5, 31, 33] {
+          let mut lines = Vec::new();
+          for _ in 0..3 {
+            if let Ok(sh) = adss::Commune::new(2, vec![7u8; len], vec![9u8; 32], None).share() {
+              lines.push(BASE64_STANDARD.encode(sh.to_bytes()));
+            }
+          }
+          out.push(format!("ep\u{1}{}", lines.join("\n")).into_bytes());
+        }
+      }
       out.push(b"\x01".to_vec());
     }
     "server" => {
